@@ -27,6 +27,7 @@ type hopEnv struct {
 	mitm     bool
 	upstream bool
 	cred     bool
+	handler  bool
 
 	proxy *rig.Proxy
 	proc  *rig.Process
@@ -41,6 +42,9 @@ type hopEnv struct {
 	snaps sync.Map
 	// what the origin answers, by request id
 	answers sync.Map
+	// the case whose fields the upstream proxy refuses a CONNECT to refusedUpHost with (the cases of one
+	// environment run one after the other)
+	refusal atomic.Pointer[hopCase]
 
 	tag string
 }
@@ -87,6 +91,9 @@ func idOfTarget(t string) string {
 func (e *hopEnv) originResponder(w *rig.PeerConn, ex *rig.Exchange) bool {
 	if v, ok := e.answers.Load(idOfTarget(ex.Req.Target)); ok {
 		hc := v.(*hopCase)
+		if hc.Resp != "" {
+			return originAnswerOfKind(w, ex, hc)
+		}
 		b := rig.Head("HTTP/1.1 200 OK", hc.Fields)
 		fm := (&rig.Msg{Fields: hc.Fields}).FieldMap()
 		keep := true
@@ -128,7 +135,7 @@ func (e *hopEnv) startPeers() error {
 		return err
 	}
 	tlsAddr := e.tlsOrigin.Addr
-	e.up, err = rig.NewForwardProxy("upstream", func(string) string { return tlsAddr })
+	e.up, err = rig.NewRefusingForwardProxy("upstream", func(string) string { return tlsAddr }, e.upstreamRefusal)
 	return err
 }
 
@@ -150,8 +157,9 @@ func (e *hopEnv) close() {
 // command/run configureHeadersModifiers / configureTransportProxy do, but read from e.cur so that one
 // proxy instance serves many rule lists; in front of the rules a recorder keeps the header map the
 // rules are about to see.
-func newRigEnv(ctx *core.Ctx, mitm, upstream, cred bool) (*hopEnv, error) {
+func newRigEnv(ctx *core.Ctx, mitm, upstream, cred bool, handler ...bool) (*hopEnv, error) {
 	e := &hopEnv{via: "rig", mitm: mitm, upstream: upstream, cred: cred}
+	e.handler = len(handler) > 0 && handler[0]
 	e.cur.Store(&ruleLists{})
 	if err := e.startPeers(); err != nil {
 		return nil, err
@@ -165,10 +173,17 @@ func newRigEnv(ctx *core.Ctx, mitm, upstream, cred bool) (*hopEnv, error) {
 			rig.Route(hopOrigin, "80", e.origin.Addr),
 			rig.Route(hopOrigin, "443", e.tlsOrigin.Addr),
 			rig.Route("upstream.test", "3128", e.up.Addr),
+			rig.Route(refusedHost, "80", refusedAddr),
+			rig.Route(refusedHost, "443", refusedAddr),
 		},
-		Transport: func(tc *forwarder.HTTPTransportConfig) { tc.CACertFiles = []string{caFile} },
+		Transport: func(tc *forwarder.HTTPTransportConfig) {
+			tc.CACertFiles = []string{caFile}
+			tc.ResponseHeaderTimeout = hopResponseHeaderTimeout
+		},
 		Configure: func(cfg *forwarder.HTTPProxyConfig) {
 			cfg.Name = "fwdverif"
+			cfg.TestingHTTPHandler = e.handler
+			cfg.DenyDomains = forwarder.MatchFunc(func(h string) bool { return h == deniedHost })
 			cfg.RequestModifiers = append(cfg.RequestModifiers,
 				forwarder.RequestModifierFunc(func(req *http.Request) error {
 					if req.Method == http.MethodConnect {
@@ -261,7 +276,10 @@ func newBinaryEnvWith(ctx *core.Ctx, mitm, upstream, cred bool, listArgs, env []
 		return nil, "", err
 	}
 	args := []string{"--log-level", "error", "--proxy-localhost", "allow", "--name", "fwdverif", "--api-address", "",
-		"--connect-to", hopOrigin + ":80:" + e.origin.Addr + "," + hopOrigin + ":443:" + e.tlsOrigin.Addr}
+		"--connect-to", hopOrigin + ":80:" + e.origin.Addr + "," + hopOrigin + ":443:" + e.tlsOrigin.Addr +
+			"," + refusedHost + ":80:" + refusedAddr + "," + refusedHost + ":443:" + refusedAddr,
+		"--deny-domains", "^" + strings.ReplaceAll(deniedHost, ".", "\\.") + "$",
+		"--http-response-header-timeout", hopResponseHeaderTimeout.String()}
 	if mitm {
 		args = append(args, "--mitm", "--insecure")
 	}
@@ -292,7 +310,10 @@ func newBinaryEnvWith(ctx *core.Ctx, mitm, upstream, cred bool, listArgs, env []
 
 // open returns a client connection ready for requests; secure: after CONNECT + TLS handshake with the
 // intercepting proxy.
-func (e *hopEnv) open(secure bool) (*rig.Client, error) {
+func (e *hopEnv) open(secure bool) (*rig.Client, error) { return e.openHost(secure, hopOrigin) }
+
+// openHost is open for an intercepted session with another host.
+func (e *hopEnv) openHost(secure bool, hopOrigin string) (*rig.Client, error) {
 	c, err := rig.Dial(e.addr)
 	if err != nil {
 		return nil, err
